@@ -85,6 +85,19 @@ var baseTables = map[string][]string{
 	"HASH": {"#"},
 }
 
+// aceCandidates: names with "xn--" labels; see GetTables.
+var aceCandidates = []string{
+	// malformed / overflowing Punycode: single label, final, non-final, middle
+	"xn--0", "xn--a-0", "host.xn--0", "xn--99999999999", "xn---e1afmkfd.xn--p1ai", "xn--0.example", "a.xn--a-0.example",
+	"xn--zz.example", "good.xn--zz", "xn---", "xn--", "xn--.com", "xn--e1afmkfd.xn--0",
+	// valid ACE: single label, final, non-final, both
+	"xn--p1ai", "host.xn--p1ai", "xn--bcher-kva.example", "xn--e1afmkfd.xn--p1ai", "xn--a.com", "xn--a-",
+	// the upper-case prefix is not decoded at all
+	"XN--0", "host.XN--0", "Xn--a-0.example", "XN--E1AFMKFD.XN--P1AI",
+	// IDN controls (the U-label forms of the valid ACE names, mixed forms)
+	"рф", "хост.рф", "bücher.example", "пример.xn--p1ai", "xn--e1afmkfd.рф", "Bücher.XN--0",
+}
+
 // commentTexts is what CMT stands for after the first '#': anything at all.
 var commentTexts = []string{"", " comment", "1.2.3.4 host.example", "#", "\t# x", "\xff\xfe", "text\rmore", "пример", "::1 localhost # again",
 	"a", " ", "\t", "###", "127.0.0.1\tlocalhost", "\x00", "é"}
@@ -117,13 +130,40 @@ func GetTables() (*Tables, error) {
 				m["Nbad"] = append(m["Nbad"], name)
 			}
 		}
+		// ACE (Punycode) names: ValidateDomainName runs idna.ToASCII, which
+		// decodes every lower-case "xn--" label and fails on malformed or
+		// overflowing Punycode, so such all-ASCII names are invalid although
+		// every label looks like a host name label.  Candidates (bogus ACE
+		// in final / non-final position, valid ACE and IDN controls, the
+		// upper-case prefix) are classified by the reference itself and are
+		// also kept in the "#ace" lists used by the ACE concretisation mode.
+		for _, name := range aceCandidates {
+			tok := "Nbad"
+			switch {
+			case refName(name) != nil:
+			case isASCII(name):
+				tok = "N"
+			default:
+				tok = "Nidn"
+			}
+			if _, aerr := refAddr(name); aerr == nil {
+				continue
+			}
+			m[tok] = append(m[tok], name)
+			m[tok+"#ace"] = append(m[tok+"#ace"], name)
+		}
 		bad := func(tok, s, why string) {
 			if tablesErr == nil {
 				tablesErr = fmt.Errorf("table %s entry %q: %s", tok, s, why)
 			}
 		}
+		for _, need := range []string{"Nbad#ace", "N#ace", "Nidn#ace"} {
+			if len(m[need]) < 3 && tablesErr == nil {
+				tablesErr = fmt.Errorf("table %s has only %d entries: the reference no longer separates the ACE candidates", need, len(m[need]))
+			}
+		}
 		for tok, list := range m {
-			if tok == "SP" || tok == "TAB" || tok == "HASH" {
+			if tok == "SP" || tok == "TAB" || tok == "HASH" || strings.HasSuffix(tok, "#ace") {
 				continue
 			}
 			for _, s := range list {
@@ -320,8 +360,10 @@ func (c *Concrete) FieldText(from, to int) string {
 
 // Concretise draws representatives for every token until the abstraction of
 // the bytes is the image of the token line (gamma must be a right inverse of
-// alpha).  mode 0 prefers the first (plain) entries, other modes draw
-// uniformly.
+// alpha).  mode 0 prefers the first (plain) entries, modes 1 and 2 draw
+// uniformly, mode 3 (ModeACE) draws names from the ACE lists only, so that
+// every enumerated position of N / Nidn / Nbad is also filled with a valid /
+// bogus Punycode name.
 func Concretise(rng *rand.Rand, toks []string, mode int) (*Concrete, error) {
 	tb, err := GetTables()
 	if err != nil {
@@ -341,8 +383,11 @@ func Concretise(rng *rand.Rand, toks []string, mode int) (*Concrete, error) {
 				if list == nil {
 					return nil, fmt.Errorf("unknown token %q", t)
 				}
+				if ace := tb.m[t+"#ace"]; mode == ModeACE && ace != nil && try <= 100 {
+					list = ace
+				}
 				k := rng.IntN(len(list))
-				if mode == 0 || try > 100 {
+				if (mode == 0 || try > 100) && !(mode == ModeACE && try <= 100) {
 					// plain representatives: one of the first two entries
 					k = rng.IntN(min(2, len(list)))
 				}
@@ -639,7 +684,10 @@ func ParallelVectors(path string, fn func(raw []byte) error) (n int, dd *vh.Dedu
 
 // ------------------------------------------------------------------ G
 
-const nConcretisations = 3
+// ModeACE is the concretisation mode that draws names from the ACE lists.
+const ModeACE = 3
+
+const nConcretisations = 4
 
 func keyOf(line []byte) string { return "UnmarshalText(" + strconv.QuoteToASCII(string(line)) + ")" }
 
@@ -656,6 +704,19 @@ func replayLines(args []string) error {
 	}
 	var mu sync.Mutex
 	evals, accepted, sampled := 0, 0, 0
+	// Bogus-ACE names (all-ASCII, every label host-name shaped, rejected only
+	// because idna.ToASCII fails) as the first bad name in the first / a
+	// middle / the last name position, and accepted lines with a valid ACE name.
+	aceFirst, aceMiddle, aceLast, aceAccepted := 0, 0, 0, 0
+	tb, _ := GetTables()
+	isAceBad := map[string]bool{}
+	for _, s := range tb.m["Nbad#ace"] {
+		isAceBad[s] = true
+	}
+	isAceGood := map[string]bool{}
+	for _, s := range tb.m["N#ace"] {
+		isAceGood[s] = true
+	}
 	conc := vh.NewDedup()
 	n, dd, err := ParallelVectors(args[0], func(raw []byte) error {
 		var v lineVec
@@ -686,6 +747,19 @@ func replayLines(args []string) error {
 			conc.Add(c.Line)
 			if e.Kind == "Accept" {
 				accepted++
+				if slices.ContainsFunc(e.Names, func(n string) bool { return isAceGood[n] }) {
+					aceAccepted++
+				}
+			}
+			if e.Kind == "NameErr" && isAceBad[e.Bad] {
+				switch names := len(v.Fields) - 1; {
+				case v.N == names-1:
+					aceLast++
+				case v.N == 0:
+					aceFirst++
+				default:
+					aceMiddle++
+				}
 			}
 			if sampled < 4 && len(v.L) >= 4 && variant == 1 && Hash64(raw)%1009 < 8 && (e.Kind == "Accept" || e.Kind == "NameErr") {
 				sampled++
@@ -702,7 +776,8 @@ func replayLines(args []string) error {
 		return err
 	}
 	return res.Close(map[string]any{"vectors": n, "replayed": evals, "distinct_nontrivial": dd.N() - 1,
-		"distinct_concrete_lines": conc.N(), "accepted_roundtrips": accepted})
+		"distinct_concrete_lines": conc.N(), "accepted_roundtrips": accepted,
+		"ace_bad_first": aceFirst, "ace_bad_middle": aceMiddle, "ace_bad_last": aceLast, "ace_valid_accepted": aceAccepted})
 }
 
 // replayOne re-executes one concrete line (for --replay): prints what the
@@ -789,7 +864,9 @@ func RandomLine(rng *rand.Rand, tb *Tables, maxFields int) []byte {
 				return pick("Nbad", "Abad", "A4", "A6z", "CMT", "CR")
 			}
 		}
-		switch rng.IntN(8) {
+		switch rng.IntN(9) {
+		case 8:
+			return pick("Nbad#ace", "Nbad#ace", "N#ace", "Nidn#ace")
 		case 0, 1, 2, 3:
 			return mutate(pick("N", "Nidn", "A4", "A6", "A6z", "Nbad"))
 		case 4:
